@@ -21,6 +21,8 @@ class Undec(Exception):
 def is_reader_ty(ty):
     t = ty
     while t.get('k') == 'Ref': t = t['to']
+    if t.get('k') == 'Param' and 'Iterator' in str(t.get('s') or t.get('name')) and 'SymbolicBDDToken' in str(t.get('s') or t.get('name')):
+        return True          # `tokens: &mut impl Iterator<Item = &SymbolicBDDToken>`: the reader by what it yields
     return t.get('k') == 'Adt' and canon(t['def']) == 'std::iter::Peekable' and 'SymbolicBDDToken' in t.get('s', '')
 
 def consumers(lib):
@@ -92,7 +94,7 @@ def rule_A1(F, R):
         while changed:
             changed = False
             for e in walk(t['body']):
-                if e['k'] == 'Call' and id(e) in ok_ids and (callee_name(e) or '') in ('std::result::Result::map', 'std::result::Result::map_err') and e['args'] and id(e['args'][0]) not in ok_ids:
+                if e['k'] == 'Call' and id(e) in ok_ids and (callee_name(e) or '') in ('std::result::Result::map', 'std::result::Result::map_err', 'std::result::Result::and_then') and e['args'] and id(e['args'][0]) not in ok_ids:
                     ok_ids.add(id(e['args'][0])); changed = True
                 if id(e) in ok_ids and e['k'] in ('Block', 'If', 'Match', 'Use', 'NeverToAny') and 'TryDesugar' not in str(e.get('source')):
                     # the value of a propagated block / branch (the body of an inlined helper under `?`) is the value of its tail expressions
@@ -147,7 +149,7 @@ def helper_outcomes(lib, t, adv):
         if k == 'Call':
             cn = callee_name(e) or ''; dn = canon((e.get('callee') or {}).get('def')) or ''
             if cn in NEXTS + PEEKS or (cn.endswith('::next') and e['args'] and is_reader_ty(e['args'][0]['ty'])):
-                seen_adv.append(cn)
+                seen_adv.append(NEXTS[0] if cn not in PEEKS and cn.endswith('::next') else cn)
                 return ('opt', sit)
             if cn in ('std::option::Option::copied', 'std::option::Option::cloned', 'std::option::Option::as_ref', 'std::option::Option::as_deref') or dn in ('std::clone::Clone::clone',):
                 return ev(e['args'][0], env, sit)
@@ -985,6 +987,22 @@ class Walker:
         if (cn in ('core::slice::<impl [T]>::iter',) or dn in ('std::iter::IntoIterator::into_iter', 'std::iter::Iterator::copied', 'std::iter::Iterator::cloned')) and len(e['args']) == 1:
             first = self.run(e['args'][0], st)
             if all(k1 != 'val' or v1[0] == 'list' for (_, k1, v1) in first) and any(k1 == 'val' for (_, k1, v1) in first): return first
+        if cn == 'std::result::Result::and_then' and len(e['args']) == 2:
+            # expect(T, tokens).and_then(|()| parse_x(tokens)): the second step runs on the success of the first, a failure of either is the failure
+            first = self.run(e['args'][0], st)
+            if all(k1 != 'val' or v1[0] in ('res', 'ok', 'err') for (_, k1, v1) in first):
+                res = []
+                for (s1, k1, v1) in first:
+                    if k1 != 'val' or v1[0] == 'err': res.append((s1, k1, v1)); continue
+                    if v1[0] == 'res':
+                        if s1.ev and s1.ev[-1][0] in ('nt', 'tok'): self.implicit.append((s1.ev[:-1], s1.ev[-1]))
+                        else: self.unclear_failure = True
+                    outs, ab = self.run_seq(e['args'][1:], s1)
+                    res.extend(ab)
+                    for (s3, vs) in outs:
+                        if vs[0][0] not in ('closure', 'fnitem'): raise Undec('Result::and_then with a function that is not spelt out', loc)
+                        res.extend(self.apply(vs[0], [v1[1] if v1[1] is not None else ('unit',)], s3, loc))
+                return res
         if cn == 'std::result::Result::map' and len(e['args']) == 2:
             first = self.run(e['args'][0], st)
             if all(k1 != 'val' or v1[0] in ('res', 'ok', 'err') for (_, k1, v1) in first):
@@ -1004,6 +1022,8 @@ class Walker:
             res = list(ab)
             for (s, vs) in outs: res.extend(self.apply(('fnitem', cn), vs, s, loc))
             return res
+        if cn not in NEXTS and cn not in PEEKS and dn == 'std::iter::Iterator::next' and e['args'] and is_reader_ty(e['args'][0].get('ty') or {}):
+            cn = NEXTS[0]          # the reader behind `&mut impl Iterator<Item = &Token>`
         if cn in NEXTS or cn in PEEKS:
             return [(st, 'val', ('next',) if cn in NEXTS else ('peek',))]
         if cn in ('std::option::Option::map_or', 'std::option::Option::is_some_and') and e['args']:
